@@ -854,9 +854,10 @@ fn parse_nth_child_args(text: &str) -> IResult<&str, SelectorComponent> {
                 tag("n"),
                 skip_optional_whitespace,
                 sign,
+                skip_optional_whitespace,
                 digit1,
             )),
-            |(a_sign, a_opt_val, _, _, b_sign, b_val)| {
+            |(a_sign, a_opt_val, _, _, b_sign, _, b_val)| {
                 Some((num(a_opt_val, a_sign)?, num(Some(b_val), b_sign)?))
             },
         ),
